@@ -17,6 +17,9 @@ pub use runtime::{Appender, Config, Logger, Root};
 
 #[cfg(feature = "config_parsing")]
 pub use self::file::{init_file, load_config_file, FormatError};
+#[cfg(all(feature = "config_parsing", feature = "verif_hooks"))]
+#[doc(hidden)]
+pub use self::file::VerifReloader;
 #[cfg(feature = "config_parsing")]
 pub use self::raw::{Deserializable, Deserialize, Deserializers, RawConfig};
 
